@@ -14,6 +14,7 @@ Statement forms (JSON):
   {"op":"array","name":A,"init":[..]} | {"op":"array","name":A,"len":n}
   {"op":"reg","name":R,"init":v}
   {"op":"qalloc","q":Q}   {"op":"gate","g":g,"q":Q}   {"op":"cnot","c":Q,"t":Q}
+  {"op":"rot","axis":"x|y|z","q":Q,"n":int|{"tmpl":name},"d":int}
   {"op":"meas","q":Q,"to":T,"inplace":b}     T = {"kind":"new","name":F} | {"kind":"reg","name":RF} | {"kind":"entry","array":A,"idx":IDX}
   {"op":"add","target":V,"other":O,"mod":m|None}
   {"op":"if","cond":c,"a":O,"b":O|None,"form":"ctx"|"cb","body":[..]}
@@ -85,6 +86,7 @@ class DirectEval:
         self.step_bound = step_bound
         self.executed_bodies = 0
         self.iterations = 0
+        self.templates: Dict[str, int] = {}
 
     def tick(self):
         self.steps += 1
@@ -176,6 +178,13 @@ class DirectEval:
             self.need_qubit(st["q"])
             self.sv.apply1(st["q"], rq.STATIC1[st["g"]])
             self.trace.append((st["g"], st["q"]))
+        elif op == "rot":
+            self.need_qubit(st["q"])
+            n = st["n"]
+            if isinstance(n, dict):
+                n = self.templates[n["tmpl"]]
+            self.sv.apply1(st["q"], rq.rot(st["axis"], rq.angle_nd(n, st["d"])))
+            self.trace.append(("rot_" + st["axis"], st["q"], n, st["d"]))
         elif op == "cnot":
             self.need_qubit(st["c"])
             self.need_qubit(st["t"])
